@@ -39,6 +39,7 @@ type sim struct {
 	wrWho   int
 	out     *bufio.Writer
 	nevents int
+	have0   func(int) bool // pieces already on disk when the picker is created (nil: none)
 }
 
 func (s *sim) peerIdx(p *peer.Peer) int {
@@ -171,6 +172,13 @@ func (s *sim) start() {
 	for i := range urls {
 		urls[i] = fmt.Sprintf("http://ws%d/", i+1)
 	}
+	have0 := []int{}
+	for i := range s.pieces {
+		if s.have0 != nil && s.have0(i) {
+			s.pieces[i].Done = true
+			have0 = append(have0, i)
+		}
+	}
 	s.srcs = webseedsource.NewList(urls)
 	s.pp = piecepicker.New(s.pieces, s.limit, s.srcs, s.seq)
 	s.peers = make([]*peer.Peer, s.npeers+1)
@@ -184,7 +192,7 @@ func (s *sim) start() {
 	if edge == nil {
 		edge = []int{}
 	}
-	b, _ := json.Marshal(ev{"op": "Init", "np": s.np, "npeers": s.npeers, "nsrc": s.nsrc, "limit": s.limit, "seq": s.seq, "edge": edge})
+	b, _ := json.Marshal(ev{"op": "Init", "np": s.np, "npeers": s.npeers, "nsrc": s.nsrc, "limit": s.limit, "seq": s.seq, "edge": edge, "have0": have0})
 	s.out.Write(b)
 	s.out.WriteByte('\n')
 	s.nevents++
@@ -432,6 +440,59 @@ func (s *sim) runRandom(nops int) {
 	}
 }
 
+// op mix for "steal" episodes: a few hot pieces that several peers hold, web-seed ranges laid over pieces that peers are
+// already downloading, so that peer picks have to steal from web-seed ranges while pieces of the range are being written
+var opsSteal = []string{"Pick", "Pick", "Pick", "Pick", "Pick", "Pick", "PieceComplete", "PieceComplete", "PieceComplete", "WriteOK", "WriteOK",
+	"WriteBad", "WebseedPiece", "Have", "Have", "Unchoke", "Unchoke", "Choke", "StartWebseed", "StartWebseed", "CloseWebseed", "Disconnect", "Connect", "CancelDownload"}
+
+func (s *sim) runSteal(nops int) {
+	defer func() {
+		if r := recover(); r != nil {
+			if _, ok := r.(stopTrace); !ok {
+				panic(r)
+			}
+		}
+	}()
+	s.start()
+	var hot []int
+	if s.have0 != nil {
+		for i := 0; i < s.np; i++ {
+			if !s.have0(i) {
+				hot = append(hot, i)
+			}
+		}
+	} else {
+		hot = make([]int, 2+s.rng.Intn(3))
+		for i := range hot {
+			hot[i] = s.rng.Intn(s.np)
+		}
+	}
+	for pe := 1; pe <= s.npeers; pe++ {
+		s.step("Connect", pe, 0, 0, true)
+		for _, h := range hot {
+			if s.rng.Intn(5) > 0 {
+				s.step("Have", pe, h, 0, true)
+			}
+		}
+		s.step("Unchoke", pe, 0, 0, true)
+		if s.rng.Intn(2) == 0 {
+			s.step("Pick", pe, 0, 0, true)
+		}
+	}
+	for si := 1; si <= s.nsrc; si++ {
+		s.step("StartWebseed", 0, 0, si, true)
+	}
+	for n, tries := 0, 0; n < nops && tries < nops*20; tries++ {
+		op := opsSteal[s.rng.Intn(len(opsSteal))]
+		pe := 1 + s.rng.Intn(s.npeers)
+		p := hot[s.rng.Intn(len(hot))]
+		si := 1 + s.rng.Intn(s.nsrc)
+		if s.step(op, pe, p, si, true) {
+			n++
+		}
+	}
+}
+
 // script replay: ops generated by TLC from the specification (best effort: inapplicable ops are skipped)
 type scriptOp struct {
 	Op string `json:"op"`
@@ -474,6 +535,7 @@ func main() {
 	scripts := flag.String("scripts", "", "ndjson file with TLC-generated scripts")
 	outp := flag.String("out", "trace.ndjson", "")
 	nbig := flag.Int("nbig", 0, "number of random traces on torrents with 40..100 pieces and web seeds")
+	nsteal := flag.Int("nsteal", 0, "number of steal episodes (hot pieces under web-seed ranges)")
 	flag.Parse()
 	f, err := os.Create(*outp)
 	if err != nil {
@@ -506,6 +568,14 @@ func main() {
 		s.nsrc = rng.Intn(3)
 		s.limit = []int{0, 1, 1, 2, 2, 3, 20}[rng.Intn(7)]
 		s.seq = rng.Intn(2) == 0
+		if rng.Intn(3) == 0 { // resumed torrent: a random part is already there
+			have := make([]bool, s.np)
+			d := 2 + rng.Intn(6)
+			for j := range have {
+				have[j] = rng.Intn(10) < d
+			}
+			s.have0 = func(i int) bool { return have[i] }
+		}
 		s.runRandom(*nops)
 		total += s.nevents
 	}
@@ -517,6 +587,21 @@ func main() {
 		s.limit = []int{1, 1, 2, 2, 3}[rng.Intn(5)]
 		s.seq = rng.Intn(3) == 0
 		s.runRandom(*nops * 3)
+		total += s.nevents
+	}
+	for i := 0; i < *nsteal; i++ {
+		s := &sim{rng: rng, out: w}
+		s.np = 40 + rng.Intn(61)
+		s.npeers = 2 + rng.Intn(*maxPeers)
+		s.nsrc = 1 + rng.Intn(2)
+		s.limit = []int{1, 1, 2, 2, 3}[rng.Intn(5)]
+		s.seq = rng.Intn(3) == 0
+		if rng.Intn(4) > 0 { // everything but a short window is already there: web-seed ranges and peers meet in the window
+			wl := 3 + rng.Intn(8)
+			wb := rng.Intn(s.np - wl)
+			s.have0 = func(i int) bool { return i < wb || i >= wb+wl }
+		}
+		s.runSteal(*nops)
 		total += s.nevents
 	}
 	w.Flush()
